@@ -8,14 +8,16 @@ LENIENT = [
     'getattr for keywords); item access and get for every name',
     'C17: item access with a composite key on the snapshot (s["a/b"]) is not demanded, paths are walked one name at a time',
     'C17: what an absent name or a mutation attempt raises is compared as "raises", the class is not',
-    'C17: a snapshot object is not looked at any more once its map was changed (whether it follows later changes is '
-    'not stated); get_static_map() called again after the change must mirror the map as it is then',
+    'C17: a snapshot is a frozen mirror: while its map changes it keeps answering as when it was taken (it neither '
+    'follows the map nor breaks); get_static_map() called again after the change must mirror the map as it is then.  '
+    'One snapshot is looked at at a time (the latest), through a bounded number of changes (KeepSnap)',
     'C17: writing through the instance __dict__ that non-identifier names force into existence is not an '
     '"attempt to set an attribute" in the weaker reading; only setattr / delattr are exercised',
 ]
 OPS_NAMES = '{"set", "snap", "sattr", "sitem", "sget", "smut"}'
 OPS_NAMES_PUSH = '{"set", "push", "snap", "sattr", "sitem", "sget", "smut"}'
-OPS_RESNAP = '{"set", "clear", "snap", "sget"}'
+OPS_RESNAP = '{"set", "clear", "snap", "sitem"}'                         # (get is read after every step anyway: smirror)
+OPS_RESNAP_ALL = '{"set", "clear", "snap", "sattr", "sitem", "sget"}'
 OPS_LAYERS = '{"set", "push", "item", "snap", "sattr", "sitem", "sget", "smut"}'
 INV = rc.INV_STATIC + ['AtMostOneLoad', 'CachedTellsTruth']
 PROP = rc.PROP_STATIC + ['SameObject']
@@ -29,16 +31,18 @@ def _configs(thorough):
                                       cls='Cls_Two'),
                 'c17_layers': rc.consts(maps=2, handles=2, layers=2, gen=1, ops=OPS_LAYERS, builders=['m0'], phased=True,
                                         cls='Cls_Two'),
-                'c17_resnap': rc.consts(maps=2, handles=2, layers=1, gen=1, ops=OPS_RESNAP, receivers=['m0'], resnap=True),
+                'c17_resnap': rc.consts(maps=2, handles=2, layers=1, gen=1, ops=OPS_RESNAP_ALL, receivers=['m0'], resnap=True,
+                                        keep_snap=1),
                 'c17_resnap_layers': rc.consts(maps=3, handles=2, layers=2, gen=1, receivers=['m0'], resnap=True,
                                                ops='{"set", "clear", "push", "snap", "sget"}')}
     # every lexical class of names (slots / __dict__ / mangling), flat and nested; then layered handles; then
-    # snapshot - change the root or a sub-map directly - snapshot again
+    # snapshot - change the root or a sub-map directly - read the old snapshot (it has not moved) - snapshot again
     return {'c17_names': rc.consts(maps=2, handles=2, layers=1, gen=1, ops=OPS_NAMES, builders=['m0'], phased=True,
                                    cls='Cls_Mix'),
             'c17_layers': rc.consts(maps=2, handles=2, layers=2, gen=1, ops=OPS_LAYERS, builders=['m0'], receivers=['m0'],
                                     phased=True, cls='Cls_Plain'),
-            'c17_resnap': rc.consts(maps=2, handles=2, layers=1, gen=1, ops=OPS_RESNAP, receivers=['m0'], resnap=True)}
+            'c17_resnap': rc.consts(maps=2, handles=2, layers=1, gen=1, ops=OPS_RESNAP, receivers=['m0'], resnap=True,
+                                    keep_snap=1)}
 
 
 def run(res):
